@@ -405,3 +405,89 @@ Proof.
   replace (1 * C + c <? C)%Z with false by lia.
   replace (1 * C + c - C)%Z with c by lia. reflexivity.
 Qed.
+
+(* ---------------------------------------------------------------- bicubic (cubic convolution, A = -3/4) *)
+(* the four coefficients sum to one for every fractional position *)
+Theorem cubic_coeffs_sum1 t : cc2 (t + 1) + cc1 t + cc1 (1 - t) + cc2 (2 - t) == 1.
+Proof. unfold cc1, cc2, cubicA. ring. Qed.
+
+Lemma cubic_coeffs_at_0 t : t == 0 -> cc2 (t + 1) == 0 /\ cc1 t == 1 /\ cc1 (1 - t) == 0 /\ cc2 (2 - t) == 0.
+Proof. intros H. unfold cc1, cc2, cubicA. rewrite H. repeat split; ring. Qed.
+
+Theorem bicubic_taps_sum1 ix : wsum (bicubic_taps1 ix) == 1.
+Proof.
+  unfold bicubic_taps1, wsum. cbn [map qsum snd]. set (t := ix - inject_Z (Qfloor ix)).
+  transitivity (cc2 (t + 1) + cc1 t + cc1 (1 - t) + cc2 (2 - t)); [ring|apply cubic_coeffs_sum1].
+Qed.
+
+(* border padding (index clipping) never loses a neighbour: the weights always sum to one *)
+Theorem bicubic_border_sum1 ac n x : wsum (axis_taps_bicubic PBorder ac n x) == 1.
+Proof.
+  unfold axis_taps_bicubic, wsum. rewrite map_map. cbn [snd].
+  apply (bicubic_taps_sum1 (unnormalize ac n x)).
+Qed.
+
+(* zeros padding: all four neighbours inside => the weights sum to one *)
+Theorem bicubic_zeros_sum_inside ac n x :
+  forallb (fun t => inb n (fst t)) (bicubic_taps1 (unnormalize ac n x)) = true ->
+  wsum (axis_taps_bicubic PZeros ac n x) == 1.
+Proof.
+  intros H. unfold axis_taps_bicubic.
+  assert (E : forall l, forallb (fun t : Z * Q => inb n (fst t)) l = true -> filter (fun t => inb n (fst t)) l = l).
+  { induction l as [|a l IH]; cbn; [reflexivity|]. intros Hl. apply andb_prop in Hl. destruct Hl as [Ha Hl].
+    rewrite Ha, IH by assumption. reflexivity. }
+  rewrite E by assumption. apply bicubic_taps_sum1.
+Qed.
+
+(* constants are reproduced (border: always; zeros: when the 4 x 4 neighbourhood is inside) *)
+Theorem bicubic_const_border c ac H W gx gy : grid_sample2_bicubic PBorder ac H W (fun _ _ => c) gx gy == c.
+Proof. unfold grid_sample2_bicubic. rewrite sample2_const, !bicubic_border_sum1. ring. Qed.
+
+Theorem bicubic_const_zeros c ac H W gx gy :
+  forallb (fun t => inb H (fst t)) (bicubic_taps1 (unnormalize ac H gy)) = true ->
+  forallb (fun t => inb W (fst t)) (bicubic_taps1 (unnormalize ac W gx)) = true ->
+  grid_sample2_bicubic PZeros ac H W (fun _ _ => c) gx gy == c.
+Proof.
+  intros Hy Hx. unfold grid_sample2_bicubic.
+  rewrite sample2_const, (bicubic_zeros_sum_inside ac H gy Hy), (bicubic_zeros_sum_inside ac W gx Hx). ring.
+Qed.
+
+(* a grid point exactly on a pixel returns that pixel *)
+Theorem bicubic_axis_on_pixel p ac n x j f : (0 <= j < n)%Z -> unnormalize ac n x == inject_Z j ->
+  axis_apply f (axis_taps_bicubic p ac n x) == f j.
+Proof.
+  intros Hj H. unfold axis_taps_bicubic, bicubic_taps1. rewrite (Qfloor_int _ j H).
+  assert (E : unnormalize ac n x - inject_Z j == 0) by (rewrite H; ring).
+  destruct (cubic_coeffs_at_0 _ E) as [C0 [C1 [C2 C3]]].
+  destruct p.
+  - assert (Ej : inb n j = true) by (unfold inb; lia).
+    cbn [filter fst]. rewrite Ej.
+    destruct (inb n (j - 1)), (inb n (j + 1)), (inb n (j + 2)); unfold axis_apply; cbn [map qsum fst snd];
+      rewrite ?C0, ?C1, ?C2, ?C3; ring.
+  - unfold axis_apply. cbn [map qsum fst snd]. rewrite C0, C1, C2, C3.
+    replace (clampZ n j) with j by (unfold clampZ; lia). ring.
+Qed.
+
+Theorem grid_sample2_bicubic_on_pixel p ac H W im gx gy i j : (0 <= i < H)%Z -> (0 <= j < W)%Z ->
+  unnormalize ac H gy == inject_Z i -> unnormalize ac W gx == inject_Z j ->
+  grid_sample2_bicubic p ac H W im gx gy == im i j.
+Proof.
+  intros Hi Hj Ey Ex. unfold grid_sample2_bicubic. rewrite sample2_axis.
+  rewrite (axis_apply_ext _ (fun iy => im iy j)) by (intros; apply bicubic_axis_on_pixel; assumption).
+  apply (bicubic_axis_on_pixel p ac H gy i (fun iy => im iy j)); assumption.
+Qed.
+
+Theorem identity_grid2_bicubic p (ac : bool) H W im i j :
+  ((if ac then 2 else 1) <= H)%Z -> ((if ac then 2 else 1) <= W)%Z -> (0 <= i < H)%Z -> (0 <= j < W)%Z ->
+  grid_sample2_bicubic p ac H W im (centre_coord ac W j) (centre_coord ac H i) == im i j.
+Proof.
+  intros HnH HnW Hi Hj. apply grid_sample2_bicubic_on_pixel; try assumption; apply unnormalize_centre; assumption.
+Qed.
+
+(* the bounded neighbours are in range, so linearity (sample2_linear) and the adjoint theorem apply to bicubic as well *)
+Lemma axis_taps_bicubic_in_range p ac n x : (1 <= n)%Z -> Forall (fun a => (0 <= fst a < n)%Z) (axis_taps_bicubic p ac n x).
+Proof.
+  intros Hn. unfold axis_taps_bicubic. apply Forall_forall. intros t Ht. destruct p.
+  - apply filter_In in Ht. destruct Ht as [_ Hb]. unfold inb in Hb. lia.
+  - apply in_map_iff in Ht. destruct Ht as [t' [<- _]]. cbn [fst]. unfold clampZ. lia.
+Qed.
